@@ -143,6 +143,52 @@ def derivative_cells(A, B, cols, row, name, shift):
     return total, found
 
 
+X2, Y2, P2 = 1.5, 2.5, 0.5
+
+
+def check_second_variant(chk, batch, stats):
+    global P
+    """The same equations in a model with TWO parameter variants: the matrices of variant 1 are the derivatives at variant 1's own point
+    (x = 1.5, y = 2.5, p = 1/2), not at variant 0's."""
+    texts = [o["text"] for _, o in batch]
+    lines = ["!transition_variables", "x, y, " + ", ".join("z%d" % i for i in range(len(texts))), "!log-variables", "y", "!parameters", "p", "!transition_equations"]
+    lines += ["z%d = %s;" % (i, t) for i, t in enumerate(texts)] + ["x = 0.5*x{-1} + 1;", "y = 2*y{-1}^0.5;"]
+    m = ir.Simultaneous.from_string("\n".join(lines) + "\n", context=dict(CONTEXT))
+    m.alter_num_variants(2)
+    m.assign(x=[X, X2], y=[Y, Y2], p=[0.25, P2], **{"z%d" % i: 1.0 for i in range(len(texts))})
+    systems = quiet(m.systemize)
+    vec = m._invariant.dynamic_descriptor.system_vectors.transition_variables
+    q2n = m.create_qid_to_name()
+    cols = {(q2n[t.qid], t.shift): j for j, t in enumerate(vec)}
+    A, B = np.asarray(systems[1].A, dtype=float), np.asarray(systems[1].B, dtype=float)
+    env = lambda n, sh: X2 if n == "x" else Y2
+    for row, (sc, out) in enumerate(batch):
+        payload = {"kind": "aldi-variant", "text": out["text"], "tree": _plain(sc["e"])}
+        d = dict(out["d"])
+        p_saved = P
+        try:
+            P = P2
+            try:
+                ev(sc["e"], env)
+            except Domain:
+                continue
+            bad = False
+            for (name, shift) in WRTS:
+                try:
+                    e = ev(d[(name, shift)], env) * (Y2 if name == "y" else 1.0)
+                except Domain:
+                    continue
+                g, found = derivative_cells(A, B, cols, row, name, shift)
+                if (not found and abs(e) > 1e-12) or (found and (math.isnan(g) or abs(g - e) > 1e-7 * max(1.0, abs(e)))):
+                    chk.mismatch("aldi:second-variant:" + _fns(sc["e"]), "z = %s in a two-variant model: derivative of variant 1 with respect to %s%s{%d} at ITS point x=1.5, y=2.5, p=1/2 is %r in systemize(), true value %r" % (
+                        out["text"], "log " if name == "y" else "", name, shift, g, e), payload)
+                    bad = True
+                    break
+            stats["second_variant"] += not bad
+        finally:
+            P = p_saved
+
+
 def check_measurement(chk, m, batch, cols, stats):
     """F and G of the measurement block  F y + G x + H + J w = 0: row of o_i = <tree one period earlier>."""
     F, G, mcols = m._verif_meas
@@ -223,6 +269,13 @@ def check_batch(chk, batch, stats):
                     out["text"], "log " if name == "y" else "", name, shift, g, e), payload)
                 break
         stats["checked"] += 1
+    try:
+        check_second_variant(chk, batch, stats)
+    except MachineryError:
+        raise
+    except Exception as ex:
+        stats["rejected_other"] += 1
+        stats["rejected_examples"].setdefault("check_second_variant:" + type(ex).__name__, repr(ex)[:200])
     try:
         check_measurement(chk, m, batch, cols, stats)
     except MachineryError:
@@ -435,7 +488,7 @@ def run(chk):
             continue
         items.append((st["sc"], st["out"]))
     os.remove(dump)
-    stats = {"checked": 0, "rejected": 0, "domain": 0, "rejected_examples": {}, "stacked": 0, "measurement": 0, "steady_flat": 0, "steady_nonflat": 0, "rejected_other": 0}
+    stats = {"checked": 0, "rejected": 0, "domain": 0, "rejected_examples": {}, "stacked": 0, "second_variant": 0, "measurement": 0, "steady_flat": 0, "steady_nonflat": 0, "rejected_other": 0}
     items.sort(key=lambda so: so[1]["text"])
     for i in range(0, len(items), 20):
         check_batch(chk, items[i:i + 20], stats)
@@ -463,7 +516,7 @@ def run(chk):
     chk.sample({"tree": items[len(items) // 2][1]["text"], "spec_derivatives": {"%s{%d}" % k: _plain(v) for k, v in dict(items[len(items) // 2][1]["d"]).items()}})
     chk.replayed += stats["checked"]
     chk.no_claim += stats["rejected"] + stats["domain"]
-    chk.notes.update({"trees_checked_in_measurement_block": stats["measurement"], "trees_checked_stacked_time_jacobian": stats["stacked"], "trees_checked_flat_steady_jacobian": stats["steady_flat"],
+    chk.notes.update({"trees_checked_in_second_variant": stats["second_variant"], "trees_checked_in_measurement_block": stats["measurement"], "trees_checked_stacked_time_jacobian": stats["stacked"], "trees_checked_flat_steady_jacobian": stats["steady_flat"],
                       "trees_checked_nonflat_steady_jacobian": stats["steady_nonflat"], "evaluator_raised": stats["rejected_other"]})
     chk.notes.update({"trees_checked": stats["checked"], "trees_rejected_by_irispie": stats["rejected"], "outside_domain_or_at_kink": stats["domain"],
                       "rejected_examples": stats["rejected_examples"], "trees_in_spec_run": total})
